@@ -194,6 +194,11 @@ package presign
 //@   loop 1: invariant DeltaShare != nil && ChiShare != nil && fresh(DeltaShare) && fresh(ChiShare)
 //@   loop 1: invariant DeltaSharesAlpha != nil && ChiSharesAlpha != nil && fresh(DeltaSharesAlpha) && fresh(ChiSharesAlpha) && KShareInt != nil
 //@   loop 1: invariant culprits == nil || fresh(culprits)
+// (C04) a party named for a failed decryption is another member of the session (that one of its two ciphertexts for
+// this party does not validate is what Dec's contract says at each append; carrying it through the loop as an
+// invariant over the ghost values of all ciphertexts came back unknown and is not claimed)
+//@   ensures[C04] typeis(result0, *round.Abort) ==> each(result0.(*round.Abort).Culprits, c, inslice(r.Helper.otherPartyIDs, c))
+//@   loop 1: invariant[C04] each(culprits, c, inslice(r.Helper.otherPartyIDs, c))
 // (a session continues past round 3 only if every peer's ciphertexts for us decrypted, i.e. validated under our key;
 // the abort branches of rounds 6 and 7 open exactly these ciphertexts again and state that as their precondition
 // `psopen`. The loop invariant that would carry this fact out of the decryption loop is not discharged by the solvers
@@ -302,6 +307,8 @@ package presign
 //@   requires r.PreSignature != nil && r.PreSignature.R != nil && r.PreSignature.RBar != nil && r.PreSignature.S != nil
 //@   requires forall(j, party.ID, indom(r.SigmaShares, j) ==> r.SigmaShares[j] != nil)
 //@   requires forall(j, party.ID, indom(r.PreSignature.RBar.Points, j) ==> (r.PreSignature.RBar.Points[j] != nil && r.PreSignature.S.Points[j] != nil && r.SigmaShares[j] != nil))
+// (C04) a failed online signature names exactly parties whose share fails the per-share check against the presignature
+//@   ensures[C04] typeis(result0, *round.Abort) ==> each(result0.(*round.Abort).Culprits, j, ecdsa.sharebad(r.PreSignature, r.SigmaShares, r.Message, j))
 // the culprit arithmetic of the abort rounds: every party's opened values are present (the Store gates refuse
 // incomplete abort messages; our own entries come from round 3)
 // refinement of the interface contract of round.Round.Finalize (what the handler relies on)
@@ -318,6 +325,10 @@ package presign
 //@   requires forall(j, party.ID, inslice(r.Helper.partyIDs, j) ==> (r.KShares[j] != nil && r.GammaShares[j] != nil && r.DeltaShares[j] != nil && r.DeltaAlphas[j] != nil))
 //@   requires forall(j, party.ID, forall(l, party.ID, (inslice(r.Helper.partyIDs, j) && inslice(r.Helper.partyIDs, l) && l != j) ==> r.DeltaAlphas[j][l] != nil))
 //@   loop 1: invariant r != nil && ps6ok(r.presign6) && culprits == nil || fresh(culprits)
+// (C04) only other members of the session are ever named (never the party itself, never an outsider)
+//@   ensures[C04] typeis(result0, *round.Abort) ==> each(result0.(*round.Abort).Culprits, c, inslice(r.Helper.otherPartyIDs, c))
+//@   loop 1: invariant[C04] each(culprits, c, inslice(r.Helper.otherPartyIDs, c))
+//@   loop 2: invariant[C04] each(culprits, c, inslice(r.Helper.otherPartyIDs, c)) && inslice(r.Helper.otherPartyIDs, j)
 //@   loop 1: invariant forall(j, party.ID, inslice(r.Helper.partyIDs, j) ==> (r.KShares[j] != nil && r.GammaShares[j] != nil && r.DeltaShares[j] != nil && r.DeltaAlphas[j] != nil))
 //@   loop 1: invariant forall(j, party.ID, forall(l, party.ID, (inslice(r.Helper.partyIDs, j) && inslice(r.Helper.partyIDs, l) && l != j) ==> r.DeltaAlphas[j][l] != nil))
 //@   loop 2: invariant r != nil && ps6ok(r.presign6) && culprits == nil || fresh(culprits)
@@ -338,6 +349,10 @@ package presign
 //@   requires forall(j, party.ID, forall(l, party.ID, (inslice(r.Helper.partyIDs, j) && inslice(r.Helper.partyIDs, l) && l != j) ==> r.ChiAlphas[j][l] != nil))
 //@   loop 1: invariant culprits == nil || fresh(culprits)
 //@   loop 2: invariant (culprits == nil || fresh(culprits)) && M != nil && inslice(r.Helper.partyIDs, j)
+// (C04) only other members of the session are ever named (never the party itself, never an outsider)
+//@   ensures[C04] typeis(result0, *round.Abort) ==> each(result0.(*round.Abort).Culprits, c, inslice(r.Helper.otherPartyIDs, c))
+//@   loop 1: invariant[C04] each(culprits, c, inslice(r.Helper.otherPartyIDs, c))
+//@   loop 2: invariant[C04] each(culprits, c, inslice(r.Helper.otherPartyIDs, c)) && inslice(r.Helper.otherPartyIDs, j)
 //@   loop 1: invariant forall(j, party.ID, inslice(r.Helper.partyIDs, j) ==> (r.KShares[j] != nil && r.YHat[j] != nil && r.ECDSA[j] != nil && r.ChiAlphas[j] != nil && r.ElGamalChi[j] != nil && r.ElGamalChi[j].M != nil))
 //@   loop 1: invariant forall(j, party.ID, forall(l, party.ID, (inslice(r.Helper.partyIDs, j) && inslice(r.Helper.partyIDs, l) && l != j) ==> r.ChiAlphas[j][l] != nil))
 //@   loop 2: invariant forall(j, party.ID, inslice(r.Helper.partyIDs, j) ==> (r.KShares[j] != nil && r.YHat[j] != nil && r.ECDSA[j] != nil && r.ChiAlphas[j] != nil && r.ElGamalChi[j] != nil && r.ElGamalChi[j].M != nil))
